@@ -1,0 +1,13 @@
+//go:build verif
+
+package standard
+
+import (
+	"net"
+
+	"github.com/cloudwego/hertz/pkg/network"
+)
+
+// NewConnForVerif exposes the real buffered connection over an arbitrary
+// net.Conn so that verification harnesses can dictate read fragmentation.
+func NewConnForVerif(c net.Conn, size int) network.Conn { return newConn(c, size) }
